@@ -523,6 +523,12 @@ func connClosed(transport string, r *sessRun) bool {
 	return true // EOF (nil from io.Copy), reset, or closed
 }
 
+// descriptorClosed: the real TCP connection of the run reports net.ErrClosed.
+func descriptorClosed(r *sessRun) bool {
+	err := r.conn.Conn.SetReadDeadline(time.Time{})
+	return err != nil && errors.Is(err, net.ErrClosed)
+}
+
 func payload(sess, i, size int) []byte {
 	b := make([]byte, size)
 	for k := range b {
@@ -962,6 +968,10 @@ func ExecSess(c CaseSess) *vkit.Result {
 		// a session that was given its own handler reports its end to that handler, the others to the manager's
 		if own, mgrN := r.exitsViaOwn.Load(), r.exitsViaMgr.Load(); (r.spec.OwnHandler && (own != 1 || mgrN != 0)) || (!r.spec.OwnHandler && (own != 0 || mgrN != 1)) {
 			return res.Failf("exit-callback-count", "session %d (%+v): the exit was reported %d times to the session's own handler and %d times to the manager's handler", r.idx, r.spec, own, mgrN)
+		}
+		// (every session goroutine is gone, so every quit has completed: a descriptor that is still open now was not closed)
+		if c.Transport == "tcp" && !descriptorClosed(r) {
+			return res.Failf("conn-not-closed", "session %d (%+v): the session ended, both its loops have returned, but its TCP connection is not closed (the descriptor is still usable)", r.idx, r.spec)
 		}
 		if !waitFor(func() bool { return connClosed(c.Transport, r) }, patience) {
 			return res.Failf("conn-not-closed", "session %d (%+v): the session ended but never closed its connection", r.idx, r.spec)
@@ -1610,8 +1620,8 @@ var PartSrv = &vkit.Part[CaseSrv]{
 
 var PartSrvRace = &vkit.Part[CaseSrv]{
 	Property: Property, Name: "race-server-accept-limit",
-	Rule:  PartSrv.Rule + " (binary built with -race)",
-	Quick: 10, Thorough: 60,
+	Rule:  PartSrv.Rule + " (binary built with -race; mainly a thorough-tier part: a failing case of this part is expensive to minimise - every attempt waits the bounded patience - so the quick tier runs only two cases)",
+	Quick: 2, Thorough: 60,
 	Gen: GenSrv, Exec: ExecSrv,
 }
 
